@@ -351,7 +351,49 @@ def case_key(c):
     return hashlib.sha1((c.get("coq") or json.dumps(c.get("desc"), sort_keys=True)).encode()).hexdigest()
 
 
+def replay_case(pid, path):
+    """re-evaluate a recorded failing case against model and spec (and print it)"""
+    rec = json.load(open(path))
+    c = rec.get("case") or rec.get("first_mismatching_case")
+    if not c or not c.get("coq"):
+        print(json.dumps(rec, indent=1)[:4000])
+        print("replay: no concrete case recorded (obligation-level violation): rerun the check itself")
+        return 1
+    prop = load_prop(pid)
+    srcgen(pid)
+    with Lock("coq"):
+        coq_make(pid, theory_files(pid, prop))
+    mism, specf, err = eval_cases(pid, [c])
+    print(json.dumps(c.get("desc"), indent=1)[:3000])
+    print("replay: model-vs-observed %s; spec-vs-observed %s; go oracle: %s%s" % ("MISMATCH" if mism else "agree", "FAIL" if specf else "ok", c.get("go_fail") or "ok", ("; eval error: " + err) if err else ""))
+    print("(observed values are the ones recorded when the violation was found; to re-observe the implementation run the check again with VERIF_SEED=%s)" % rec.get("seed"))
+    return 1 if (mism or specf or c.get("go_fail")) else 0
+
+
+def coqchk(pid, prop, files):
+    """independent re-check of the compiled property theorems; cached by content hash"""
+    h = hashlib.sha1()
+    for f in files:
+        h.update(open(os.path.join(COQ, f), "rb").read())
+    hv = h.hexdigest()
+    cache = os.path.join(WORK, pid, "coqchk.json")
+    if os.path.exists(cache):
+        try:
+            d = json.load(open(cache))
+            if d.get("hash") == hv:
+                return d["rc"], d["out"]
+        except Exception:
+            pass
+    rc, out, dt = run(["timeout", "2400", "coqchk", "-silent", "-o", "-Q", "theories", "Sdns", "Sdns.%s.Properties" % pid], cwd=COQ, timeout=2500)
+    out = out[-6000:]
+    with open(cache, "w") as f:
+        json.dump({"hash": hv, "rc": rc, "out": out, "wall_s": dt}, f)
+    return rc, out
+
+
 def check(pid, tier, replay=None):
+    if replay:
+        return replay_case(pid, replay)
     t0 = time.time()
     seed = int(os.environ.get("VERIF_SEED", "1") or "1")
     prop = load_prop(pid)
@@ -396,6 +438,13 @@ def check(pid, tier, replay=None):
         log("coq build ok")
     thms = property_theorems(pid)
     glem = gen_lemmas(pid)
+    chk_out = None
+    if rc == 0 and tier == "thorough" and os.environ.get("VERIF_NO_COQCHK") != "1":
+        with Lock("coq"):
+            crc, chk_out = coqchk(pid, prop, files)
+        if crc != 0:
+            broken.append(("coq", "coqchk", chk_out[-1200:]))
+        log("coqchk rc=%d" % crc)
     assum = {}
     if rc == 0 and thms:
         assum, aout = print_assumptions(pid, thms)
@@ -500,6 +549,7 @@ def check(pid, tier, replay=None):
             "trusted_base": ["Coq 8.16.1 kernel + vm_compute (no native_compute)", "harness/srcgen translator", "tools/check.py, Go -overlay drivers under harness/overlay"] + prop["trusted_base"],
             "property_theorems": thms, "translator_lemmas": glem,
             "print_assumptions": assum,
+            "coqchk": (chk_out[-1500:] if chk_out else "thorough tier only"),
             "evaluations": len(all_cases), "distinct_nontrivial": nontrivial,
             "rule": prop.get("rule", "cases generated by the in-package Go drivers from VERIF_SEED; a case is non-trivial unless the driver marks it trivial; distinct = distinct Coq case term"),
             "samples": samples,
